@@ -2659,7 +2659,13 @@ func (p *Posix) UploadPart(ctx context.Context, input *s3.UploadPartInput) (*s3.
 		}
 	}
 
+	// an upload that was aborted or completed while the part was received
+	// is not brought back by its part
+	f.parentMustExist = true
 	err = f.link()
+	if errors.Is(err, fs.ErrNotExist) {
+		return nil, s3err.GetAPIError(s3err.ErrNoSuchUpload)
+	}
 	if err != nil {
 		return nil, fmt.Errorf("link object in namespace: %w", err)
 	}
@@ -2861,7 +2867,11 @@ func (p *Posix) UploadPartCopy(ctx context.Context, upi *s3.UploadPartCopyInput)
 		return s3response.CopyPartResult{}, fmt.Errorf("set etag attr: %w", err)
 	}
 
+	f.parentMustExist = true // see UploadPart
 	err = f.link()
+	if errors.Is(err, fs.ErrNotExist) {
+		return s3response.CopyPartResult{}, s3err.GetAPIError(s3err.ErrNoSuchUpload)
+	}
 	if err != nil {
 		return s3response.CopyPartResult{}, fmt.Errorf("link object in namespace: %w", err)
 	}
